@@ -168,6 +168,10 @@ class _FuncInline(SiteRewriter):
         else:
             ast = e.fn.ast
 
+        # the names the callee captures stay in use in the spliced body: no
+        # renamed local and no temporary may be named like one of them
+        self.gensym.reserve(*ast.free_vars)
+
         # one trailing return, as `_refuses` established of the callee before
         # this site was counted; recursive inlining preserves it
         assert len(Reachability.analyze(ast).ret_stmts) == 1
